@@ -712,3 +712,65 @@ def sk3(F, R):
         okv = any(strip_refs(fn.term_of_operand(t["args"][2], bb)) == ("var", var, fn.local_name(var)) or has_sub(fn.term_of_operand(t["args"][2], bb), lambda q: q[:2] == ("var", var)) for bb, t in fn.calls() if call_matches(t, ("find_data_on_disk",)))
         wb = [bb for bb, t in fn.calls() if call_matches(t, ("BlockCache::write_back",))]
         R.require(okv and any(b in fn.reach_after(x) for x in wb) and guarded(fn, b, g_try_ok("BlockCache::write_back"))[0], fn, "cursor-write-back", "the cursor stored back must be the one find_data_on_disk advanced, after the block write succeeded", fn.loc(b, i))
+
+
+@rule("FT13", ["C05", "C03", "C01"], floor=5,
+      doc="lower end of the cluster range: clusters 0 and 1 are reserved and cluster 2 is the first data cluster, at every site alike - each comparison of a cluster number with the bare constant RESERVED_ENTRIES (2) is `x < 2` / `x >= 2` (\"owns no cluster\" / \"is a data cluster\"); the only `x > 2` tests are alloc_cluster's two 'did the search start above 2, so rescan from 2' conditions")
+def ft13(F, R):
+    n = 0
+    for fn in F.fns:
+        if not (fn.npath.startswith(FATVOL + "::") or fn.npath.startswith("volume_mgr::VolumeManager")) or "{closure" in fn.npath:
+            continue
+        seen = set()
+        for (b, i, g) in all_guards(fn):
+            if not (g.kind == "bool" and g.term[0] == "cmp" and g.term[1] in ("Lt", "Le", "Gt", "Ge", "Eq")):
+                continue
+            a, z = g.term[2], g.term[3]
+            is_res = lambda t: t[0] == "c" and t[1] == 2 and t[2] and t[2].endswith("RESERVED_ENTRIES")
+            if not (is_res(a) or is_res(z)):
+                continue
+            k = tstr(g.term)
+            if k in seen:
+                continue
+            seen.add(k)
+            n += 1
+            op = g.term[1]
+            if is_res(a):    # constant on the left: mirror
+                op = {"Lt": "Gt", "Le": "Ge", "Gt": "Lt", "Ge": "Le", "Eq": "Eq"}[op]
+            short = fn.npath.split("::")[-1]
+            if short == "alloc_cluster" and op == "Gt":
+                R.ok(fn, "rescan-test", "search started above cluster 2: rescan from 2", fn.loc(b))
+                continue
+            R.require(op in ("Lt", "Ge"), fn, "first-data-cluster:" + short, "%s tests a cluster number with `%s RESERVED_ENTRIES`: cluster 2 is a data cluster like any other, the reserved ones are < 2 (a file starting in cluster 2 would be treated as owning no cluster)" % (short, {"Le": "<=", "Gt": ">", "Eq": "=="}.get(op, op)), fn.loc(b))
+    R.require(n >= 5, None, "sites", "expected >= 5 comparisons with RESERVED_ENTRIES, found %d" % n)
+
+
+def _in_iteration_after(fn, site_block, ok_pred, loop):
+    """within one trip of `loop`, every path from the loop header to `site_block` crosses an edge satisfying ok_pred"""
+    h, body, backs = loop
+    edges = [(gb, gi) for (gb, gi, g) in all_guards(fn) if gb in body and ok_pred(g)]
+    inside = fn.reach([h], cut_edges=edges, cut_blocks=[x for x in fn.live_blocks() if x not in body])
+    return bool(edges) and site_block not in inside
+
+
+@rule("SK6", ["C01", "C03", "C11"], floor=3,
+      doc="position bookkeeping follows success, trip by trip: in find_data_on_disk the cursor offset is advanced (start.0 += bytes_per_cluster) only after this trip's next_cluster(..)? succeeded and its result was stored, so a walk that ends with EndOfFile leaves (offset, cluster) consistent for the caller to extend from; in VolumeManager::read the file position moves (seek_from_current) only after this trip's block read succeeded, so a failed read can be retried from the same position")
+def sk6(F, R):
+    fn = F.fn(VMD + "::find_data_on_disk")
+    loops = [l for l in fn.loops() if any(fn.term(b)["k"] == "Call" and call_matches(fn.term(b), ("FatVolume::next_cluster",)) for b in l[1])]
+    R.require(len(loops) == 1, fn, "walk-loop", "expected one chain-walk loop in find_data_on_disk", fn.loc(0))
+    for loop in loops:
+        adv = [(b, i) for b, i, s in fn.stmts() if b in loop[1] and s["k"] == "Assign" and s["p"]["l"] == 3 and len(s["p"]["proj"]) == 2 and s["p"]["proj"][0][0] == "deref" and s["p"]["proj"][1][0] == "field" and s["p"]["proj"][1][1] == 0]
+        R.require(len(adv) == 1, fn, "advance-site", "expected one cursor-offset advance in the walk loop, found %d" % len(adv), fn.loc(loop[0]))
+        for (b, i) in adv:
+            R.require(_in_iteration_after(fn, b, g_try_ok("FatVolume::next_cluster"), loop), fn, "advance-after-link", "the cursor offset is advanced before this trip's next_cluster has succeeded: when the chain ends here the caller is left with an offset one cluster ahead of the cluster it names, and the extension that follows writes into the old last cluster", fn.loc(b, i))
+            st1 = [(bb, ii) for bb, ii, s in fn.stmts() if bb in loop[1] and s["k"] == "Assign" and s["p"]["l"] == 3 and len(s["p"]["proj"]) == 2 and s["p"]["proj"][1][0] == "field" and s["p"]["proj"][1][1] == 1]
+            R.require(len(st1) == 1 and (fn.dominates(st1[0][0], b) or st1[0][0] == b), fn, "cluster-before-offset", "the new cluster must be stored before the offset is advanced", fn.loc(b, i))
+    rd = F.fn(VM + "::read")
+    loops = [l for l in rd.loops() if any(rd.term(b)["k"] == "Call" and call_matches(rd.term(b), ("BlockCache::read",)) for b in l[1])]
+    R.require(len(loops) == 1, rd, "read-loop", "expected one copy loop in read()", rd.loc(0))
+    for loop in loops:
+        sk = [b for b in loop[1] if rd.term(b)["k"] == "Call" and call_matches(rd.term(b), ("FileInfo::seek_from_current", "FileInfo::seek_from_start"))]
+        R.require(len(sk) == 1, rd, "seek-site", "expected one position update per trip in read()", rd.loc(loop[0]))
+        for b in sk:
+            R.require(_in_iteration_after(rd, b, g_try_ok("BlockCache::read"), loop), rd, "position-after-read", "read() moves the file position before the data block has been read successfully: a read that fails with a device error has already consumed bytes it never delivered", rd.loc(b))
